@@ -22,6 +22,7 @@ func init() {
 	verifRegister("VerifC15_RepeatedDisplay", VerifC15_RepeatedDisplay)
 	verifRegister("VerifC15_CopiesIndependent", VerifC15_CopiesIndependent)
 	verifRegister("VerifC15_RetainedMessages", VerifC15_RetainedMessages)
+	verifRegister("VerifC15_ConcurrentHandlers", VerifC15_ConcurrentHandlers)
 }
 
 // c15Frame: a CRC-valid frame of a chosen kind with symbolic contents;
@@ -216,4 +217,67 @@ func VerifC15_RetainedMessages() {
 	verifAssert("held-message-bytes-survive-later-fetches", verifBytesEq(m1.RawData, saved))
 	m1.Readable = nil
 	verifAssert("held-message-text-survives-later-fetches", verifStrEq(m1.String(), text))
+}
+
+// Several handlers in parallel goroutines.  Two goroutines that share
+// nothing but the (read-only) frame each decode and display it with a
+// handler of their own.  The isolation monitor is on meanwhile: any memory
+// cell or map of the code under test that one of them writes and the other
+// reads or writes is hidden shared state -- and, the goroutines being
+// unordered, a data race under every schedule.  Both must see what a single
+// handler shows.  Frame kinds as above plus a frame whose 12-bit type is
+// symbolic (every type the library has no decoder for, known title or not).
+func VerifC15_ConcurrentHandlers() {
+	verifOwnPanics()
+	verifHexModel()
+	kind := verifParam("frame", 0, c15Kinds)
+	level := c15Level()
+	var frame []byte
+	if kind == c15Kinds {
+		p := verifBytes("f", 4)
+		frame = vfFrame(p)
+		t := uint(p[0])<<4 | uint(p[1])>>4
+		verifAssume(t != 1005 && t != 1006 && t != 1230)
+		verifAssume(!(verifOr(c20IsMSM4(int(t)), c20IsMSM7(int(t)))))
+	} else {
+		frame = c15Frame(kind, "f")
+	}
+	verifWitness("reached")
+	var got [2]c15View
+	done := make(chan int, 2)
+	verifIsolationOn()
+	for i := 0; i < 2; i++ {
+		go func(i int) {
+			h := New(verifTimeOf(vfTuesdayNoon), level)
+			got[i] = c15Process(h, frame, level)
+			done <- i
+		}(i)
+	}
+	<-done
+	<-done
+	verifIsolationOff()
+	// the reference comes last: whatever the first sight of a frame leaves
+	// behind (a cache, say) is then left behind by the goroutines
+	alone := c15Process(New(verifTimeOf(vfTuesdayNoon), level), frame, level)
+	verifWitness("returned")
+	for i := 0; i < 2; i++ {
+		verifAssert("same-type-in-parallel", alone.msgType == got[i].msgType)
+		verifAssert("same-raw-bytes-in-parallel", verifBytesEq(alone.raw, got[i].raw))
+		verifAssert("same-error-in-parallel", verifStrEq(alone.errText, got[i].errText))
+		verifAssert("same-readable-text-in-parallel", verifStrEq(alone.text, got[i].text))
+	}
+	// natively: many handlers over frames of every type under the race detector
+	verifRaceStress(c15Stress, c15Stress, c15Stress, c15Stress)
+}
+
+func c15Stress() {
+	h := New(verifTimeOf(vfTuesdayNoon), slog.LevelDebug)
+	for t := 1; t < 4096; t++ {
+		p := []byte{byte(t >> 4), byte(t<<4) | 1, 2, 3, 4, 5, 6, 7}
+		m, _ := h.GetMessage(vfFrame(p))
+		if m != nil {
+			Analyse(m)
+			_ = m.String()
+		}
+	}
 }
